@@ -287,6 +287,7 @@ FAULT_CLASSES = {
     "ImportError": ImportError, "NameError": NameError, "OverflowError": OverflowError, "UserWarning": UserWarning,
 }
 FAULT_CALLS = {"n": 0}
+_FAULT_LOCK = __import__("threading").Lock()
 
 
 def make_fault(name: str, msg: str, note: str | None = None) -> BaseException:
@@ -310,8 +311,10 @@ def fault(detector, _id: str = "", level=0, level2=0, plan=None) -> None:
     if not plan or plan.get("id") != _id:
         return
     if plan.get("nth") is not None:
-        FAULT_CALLS["n"] += 1
-        if FAULT_CALLS["n"] != plan["nth"]:
+        with _FAULT_LOCK:  # evaluations run in several threads: count and read atomically
+            FAULT_CALLS["n"] += 1
+            mine = FAULT_CALLS["n"]
+        if mine != plan["nth"]:
             return
     else:
         if plan.get("step") is not None and int(detector.pipeline_count) != plan["step"]:
